@@ -26,6 +26,9 @@ type c02Scn struct {
 	DeferMID [2][]int // indices of the other side's messages a side defers by policy (stay pending)
 	Batched  bool
 	Thorough bool
+	// DupOut: indices of a side's own messages that its mailbox offers twice while pending (two
+	// copies in the outbox, as Radio Only gateways are known to do: the library handles the case)
+	DupOut [2][]int
 }
 
 func c02Scenarios() []c02Scn {
@@ -61,6 +64,8 @@ func c02Scenarios() []c02Scn {
 		{Name: "A0-B2-Amaster", Specs: [2][]sess.MsgSpec{nil, m("B", 2)}},
 		{Name: "A1big-B1big", Specs: [2][]sess.MsgSpec{big("A", 1), big("B", 1)}, MasterB: true},
 		{Name: "A2att-B2att-batched", Specs: [2][]sess.MsgSpec{att("A", 2), att("B", 2)}, Batched: true},
+		{Name: "A2-first-offered-twice", Specs: [2][]sess.MsgSpec{m("A", 2), nil}, MasterB: true, DupOut: [2][]int{{0}, nil}},
+		{Name: "A1-offered-twice-B1-Amaster", Specs: [2][]sess.MsgSpec{m("A", 1), m("B", 1)}, DupOut: [2][]int{{0}, nil}},
 		{Name: "A7-B6", Specs: [2][]sess.MsgSpec{m("A", 7), m("B", 6)}, MasterB: true, Thorough: true},
 		{Name: "A2big-B0-Amaster", Specs: [2][]sess.MsgSpec{big("A", 2), nil}, Thorough: true},
 	}
@@ -152,6 +157,11 @@ func (c *c02Ctx) boxes(s c02State) [2]*sess.Box {
 			case 0:
 				// a fresh message object per session, as a mailbox reloading from disk would give
 				b.AddOut(c.sc.Specs[i][k].Build(c.calls[i]))
+				for _, d := range c.sc.DupOut[i] {
+					if d == k {
+						b.AddOut(c.sc.Specs[i][k].Build(c.calls[i]))
+					}
+				}
 			case 1:
 				b.Sent[m.MID()] = false
 			case 2:
